@@ -77,6 +77,7 @@ package ice
 //@   ensures C14 C15 the-writer-stops-only-at-end-of-stream-or-close: eof || flag != 0
 //@   ghostvar readOK bool = false
 //@   ghostvar got int = 0
+//@   site call Read#1 assert C14 the-scratch-buffer-holds-a-framed-packet-of-the-receive-mtu: len(arg1) >= receiveMTU + streamingPacketHeaderLen
 //@   site call Read#1 ghost readOK := result1 == nil
 //@   site call Read#1 ghost got := result0
 //@   site call Write#1 assert forwards-only-a-completely-read-frame: readOK && arg0.base == pktBuf.base && arg0.off == pktBuf.off && len(arg0) == got
